@@ -36,8 +36,9 @@ func (g *customGen[V]) value(t *T) V {
 	return find(g.maybeValue, t, small)
 }
 
-func (g *customGen[V]) maybeValue(t *T) (V, bool) {
-	t = newT(t.tb, t.s, flags.debug, nil)
+func (g *customGen[V]) maybeValue(outer *T) (V, bool) {
+	t := newT(outer.tb, outer.s, flags.debug, nil)
+	defer outer.failFrom(t) // after cleanup: cleanup callbacks may signal failures, too
 	defer t.cleanup()
 
 	defer func() {
